@@ -61,6 +61,14 @@ type Target struct {
 	// one (directly or through targets) takes and returns the world in the same
 	// way; the order of the effects is the order of evaluation of the Go code.
 	Effect bool
+	// Walk (oracles fs.WalkDir / filepath.WalkDir): the name of the callback
+	// parameter, a func(path string, d fs.DirEntry, err error) error. The
+	// oracle supplies what the walk sees of the file system as a tree
+	// (GoLib walk_tree, or the error of the root's Stat); the walk itself is
+	// GoLib's walk_dir, a transcription of the library's algorithm including
+	// the fs.SkipDir / fs.SkipAll protocol. The callback must be a function
+	// literal; the variables it assigns are threaded as its state.
+	Walk string
 	// Concrete (interface type rows with Nilable): "<pkg>.<Type>" of the one struct
 	// type whose pointer every value of this interface type holds in the translated
 	// code (ASSUMPTION, listed in the generated file). The interface value is then
@@ -167,14 +175,15 @@ type varDecl struct {
 }
 
 type loader struct {
-	repo    string
-	pkgs    map[string]*packages.Package
-	funcs   map[string]*funcDecl // (*types.Func).FullName() of the origin
-	vars    map[string]*varDecl  // pkgpath.name
-	mutated map[string]bool      // pkgpath.name of package-level variables assigned or address-taken somewhere in their package
-	scanned map[string]bool
-	loadErr string
-	modRoot string
+	repo           string
+	pkgs           map[string]*packages.Package
+	funcs          map[string]*funcDecl // (*types.Func).FullName() of the origin
+	vars           map[string]*varDecl  // pkgpath.name
+	mutated        map[string]bool      // pkgpath.name of package-level variables assigned or address-taken somewhere in their package
+	knownSentinels map[string]string    // synthetic corpus only: sentinels of packages loaded without sources -> their text
+	scanned        map[string]bool
+	loadErr        string
+	modRoot        string
 }
 
 func goliteLoad(repo string, paths []string) *loader {
@@ -334,6 +343,7 @@ type item struct {
 	reason string
 	label  string // <pkg>.<func> for the log line
 	target bool   // listed in the table (gets a log line)
+	silent bool   // when it cannot be translated nothing is printed (the plain form of an InstantiateAny row)
 }
 
 type gen struct {
@@ -571,9 +581,8 @@ func (g *gen) translateRow(t *Target, fd *funcDecl, obj *types.Func, label strin
 			}
 		}
 	}
-	if len(t.InstantiateAny) > 0 && !t.Oracle {
-		return // instantiated per call site (static type of the argument)
-	}
+	// an InstantiateAny row is instantiated per call site; its plain form (the parameter as an `any`
+	// value) is translated too when that is possible, silently otherwise
 	if generic && !t.Oracle {
 		if len(t.TypeArgs) == 0 {
 			// instances are produced on demand by the callers; the log line is
@@ -644,7 +653,7 @@ func (g *gen) render() string {
 				b.WriteString("\n")
 			}
 			b.WriteString("\n")
-		} else {
+		} else if !it.silent {
 			fmt.Fprintf(&b, "(* GOLITE-UNSUPPORTED %s: %s *)\n\n", cmt(it.label), cmt(it.reason))
 		}
 	}
@@ -683,7 +692,7 @@ func (g *gen) logLines() []string {
 		}
 		if it.status == "ok" {
 			out = append(out, "golite: ok "+it.label+" ["+g.prop+"]")
-		} else {
+		} else if !it.silent {
 			out = append(out, "golite: unsupported "+it.label+" ["+g.prop+"]: "+it.reason)
 		}
 	}
@@ -762,7 +771,7 @@ func init() {
 		map_get map_has map_get_ok map_get_or map_del map_set map_entries map_len map_unique
 		list_len list_get zrange_up zrange_down str_len take drop str_cut str_cut_opt str_index str_last_index str_contains
 		str_has_prefix str_has_suffix str_trim_prefix str_trim_suffix str_cut_prefix str_cut_suffix str_contains_any str_split str_join
-		ptr_map iface_assert bytes_of_str str_of_bytes list_slice list_set onil ptr_deep_eqb list_deep_eqb map_deep_eqb err_dyn_in filepath_base strip_trailing_slashes take_until_slash err_has_typ err_same err_is err_as err_join anyv ANil AStr AInt ABool AOther AUncmp any_is_nil any_str any_int any_bool any_str_opt any_int_opt any_bool_opt anyv_eqb anyv_cmp_panics anyv_eq_opt str_slice str_get str_trim_space filepath_ext ext_rev re_match matches re time_zero time_is_zero time_after time_before time_equal
+		ptr_map iface_assert bytes_of_str str_of_bytes list_slice list_set onil err_find walk_dir walk_node walk_tree WNode inl inr sum ptr_deep_eqb list_deep_eqb map_deep_eqb err_dyn_in filepath_base strip_trailing_slashes take_until_slash err_has_typ err_same err_is err_as err_join anyv ANil AStr AInt ABool AOther AUncmp any_is_nil any_str any_int any_bool any_str_opt any_int_opt any_bool_opt anyv_eqb anyv_cmp_panics anyv_eq_opt str_slice str_get str_trim_space filepath_ext ext_rev re_match matches re time_zero time_is_zero time_after time_before time_equal
 		B bytes str_eqb has_prefix cut_byte contains_byte amap lookup lookup_default remove_key set_key mem_str opt_eqb list_eqb run_cases
 		RNone REps RBegin REnd RChar RClass RSeq RAlt RStar RPlus ROpt id plus minus mult le lt ge gt max min`) {
 		reservedCoq[w] = true
